@@ -32,6 +32,10 @@ type ReopenConn struct {
 	// Hold: the callback of this block (index into Sizes, -1 none) does not return until the
 	// application has called Close and made its first attempt to Open again
 	Hold int `json:"hold"`
+	// PeerEnds (only without Hold): it is the peer that ends this connection (a forwarder that
+	// restarts), not the application's Close; the reader leaves by itself and the application opens the
+	// face again for the next connection
+	PeerEnds bool `json:"peerends,omitempty"`
 }
 
 type ReopenCase struct {
@@ -48,13 +52,15 @@ func genReopen(t *rapid.T) ReopenCase {
 		}
 		if i < n-1 && rapid.IntRange(0, 2).Draw(t, "held") != 0 {
 			rc.Hold = rapid.IntRange(0, len(rc.Sizes)-1).Draw(t, "hold")
+		} else if i < n-1 && rapid.Bool().Draw(t, "peerEnds") {
+			rc.PeerEnds = true
 		}
 		c.Conns = append(c.Conns, rc)
 	}
 	return c
 }
 
-const reopenWatchdog = 30 * time.Second
+const reopenWatchdog = 10 * time.Second
 
 func execReopen(c ReopenCase) (res evid.Result) {
 	dir, err := os.MkdirTemp("", "reopen")
@@ -194,6 +200,16 @@ func execReopen(c ReopenCase) (res evid.Result) {
 		if ci == len(c.Conns)-1 {
 			break
 		}
+		if rc.PeerEnds && g == nil && peer != nil {
+			peer.Close()
+			peer = nil
+			if wait(func() bool { return !f.IsRunning() }) {
+				classes["the-peer-ended-the-connection-and-the-face-was-opened-again"] = true
+				continue
+			}
+			// (a face that does not notice the end of its connection is not this unit's business:
+			// go on as if the application had decided to close it)
+		}
 		// the application closes the face -- with the reader possibly still inside the callback --
 		// and tries at once to open it again
 		if err := f.Close(); err != nil {
@@ -247,7 +263,7 @@ func execReopen(c ReopenCase) (res evid.Result) {
 	return res
 }
 
-const reopenRule = "the application-side stream face over a real unix socket: 2..4 times Open, 1..5 blocks written by the peer (2..8000 bytes), Close -- in two cases of three while the reader is held inside the packet callback -- and Open again at once (retried while the face refuses); every block written on a connection the face accepted must be handed over once, in order, byte-identical. Non-trivial: some Close/Open with the reader inside the callback; distinct by case hash"
+const reopenRule = "the application-side stream face over a real unix socket: 2..4 times Open, 1..5 blocks written by the peer (2..8000 bytes), Close -- in two cases of three while the reader is held inside the packet callback -- and Open again at once (retried while the face refuses) - or the peer ends the connection and the application opens the face again once its reader has left; every block written on a connection the face accepted must be handed over once, in order, byte-identical. Non-trivial: some Close/Open with the reader inside the callback; distinct by case hash"
 
 func TestC11AppReopen(t *testing.T) {
 	rec := evid.New("C11", "TestC11AppReopen", reopenRule)
